@@ -56,6 +56,7 @@ type V struct {
 	T *rapid.T
 	O VocabOpts
 	// Flags describing what was produced (for labels / non-triviality)
+	lastName    string
 	HostileName bool
 	ZeroValid   bool
 	Extension   bool
@@ -164,11 +165,41 @@ func ChildShape(holder, keyword string) string {
 // ---------------------------------------------------------------------------
 // leaf generators
 
-var plainNames = []string{"a", "b", "name", "id", "petId", "x", "n1", "Z", "tag_1", "very-long-name.with.dots"}
+var plainNames = []string{"a", "b", "name", "id", "petId", "x", "n1", "Z", "tag_1", "very-long-name.with.dots", "petID", "PETID", "A", "X", "N1"} // (several equal up to case)
 var hostileNames = []string{"a\"b", "a\\b", "a\\nb", "a\nb", "tab\there", "\u0001", "a/b", "a~b", "~0", "~1", "a%b", "%41", "a#b", "a?b", "a b", "{x}", "é", "日本", "😀", "^a\\d+$", "[a-z]+", "a|b", "(x)*", "", "default", "200", "x-foo", "$ref", "properties", "type", "__proto__", " "}
 
 // Name draws a member name for a map-valued container.
 func (v *V) Name(label string) string {
+	n := v.name(label)
+	v.lastName = n
+	return n
+}
+
+// caseVariant returns a name that differs from s by letter case only (s itself when it has no letters).
+func nameCaseVariant(s string, which int) string {
+	switch up, lo := strings.ToUpper(s), strings.ToLower(s); {
+	case which == 0 && up != s:
+		return up
+	case lo != s:
+		return lo
+	case up != s:
+		// all lower case: capitalise the last letter that has an upper case
+		r := []rune(s)
+		for i := len(r) - 1; i >= 0; i-- {
+			if u := []rune(strings.ToUpper(string(r[i]))); len(u) == 1 && u[0] != r[i] {
+				r[i] = u[0]
+				return string(r)
+			}
+		}
+	}
+	return s
+}
+
+func (v *V) name(label string) string {
+	if v.lastName != "" && Pct(v.T, label+"?casevariant", 10) {
+		// a name equal to the previous one up to letter case: siblings that collide under case folding
+		return nameCaseVariant(v.lastName, Uniform(v.T, label+"?which", 2))
+	}
 	if v.O.Hostile && Pct(v.T, label+"?hostile", 40) {
 		v.HostileName = true
 		return hostileNames[Uniform(v.T, label, len(hostileNames))]
@@ -319,7 +350,7 @@ func listOf(elem func(v *V, d int) any) func(v *V, d int) any {
 
 func anyName(v *V) string { return v.Name("member") }
 
-var patternNames = []string{"^a", "b$", "^a\\d+$", "[a-z]+", "^x-", ".*", "^(foo|bar)$", "a\\.b", "^\\w+\\s?$", "\"", "^[\\]]$"}
+var patternNames = []string{"^a", "^A", "b$", "^a\\d+$", "[a-z]+", "^x-", ".*", "^(foo|bar)$", "a\\.b", "^\\w+\\s?$", "\"", "^[\\]]$"}
 
 func patternName(v *V) string {
 	if v.O.Hostile {
